@@ -489,19 +489,73 @@ func c01FlamePhase(r *core.Run, cat []catRoute, paths []string) {
 	})
 }
 
+// c01WideTexts: one large table (many siblings of every kind at three levels); registered in every rotation
+// of this order and of its reverse, so every route is once the first and once the last of its siblings.
+var c01WideTexts = []string{"/a", "/b", "/c", "/ab", "/a-b", "/a+b", "/{p1}", "/{r1: /[abc]+/}", "/{r1b: /a.*/}", "/{m1: **}",
+	"/a/a", "/a/b", "/a/c", "/a/ab", "/a/{p2}", "/a/{r2: /[ab]+/}", "/a/{r2b: /b|c/}", "/a/{m2: **}", "/a/{n2: **, capture: 1}/c",
+	"/{q1}/b", "/{q1b}/c", "/{s1: /a+/}/b", "/{k1: **}/c", "/{k1b: **, capture: 2}/b/c",
+	"/a/b/c", "/a/b/a", "/a/b/{p3}", "/a/b/{r3: /c+/}", "/a/{p2c}/c", "/a/{r2c: /[ab]+/}/c", "/b/?c", "/c/?{o2}", "/a/a/?b"}
+
+func c01Wide(r *core.Run, p *route.Parser, paths []string) {
+	cat, bad := mkCatalogue(p, c01WideTexts)
+	if len(bad) > 0 {
+		r.Notes["wide_table_routes_unparseable(C06)"] = len(bad)
+	}
+	n := len(cat)
+	r.Bounds["wide_table"] = fmt.Sprintf("%d routes registered in %d orders (every rotation, forwards and backwards)", n, 2*n)
+	r.Parallel(func(w, nw int, l *core.Local) {
+		env := &c01Env{m: ref.NewMatcher()}
+		for o := w; o < 2*n; o += nw {
+			if r.Expired() {
+				return
+			}
+			rs := make([]catRoute, n)
+			for i := range rs {
+				if o < n {
+					rs[i] = cat[(o+i)%n]
+				} else {
+					rs[i] = cat[((o-n)+n-1-i+n)%n]
+				}
+			}
+			tree, trie, reg, usable := c01Build(rs)
+			if !usable {
+				l.Extra["configs_skipped_registration_verdict_differs(C08)"]++
+				continue
+			}
+			l.States++
+			l.Extra["wide_table_routes_registered"] += int64(len(reg))
+			for pi, pth := range paths {
+				l.Evals++
+				l.Transitions++
+				l.Traces++
+				bad, key, class, nt := c01Eval(env, tree, trie, pth)
+				if nt {
+					l.NonTrivial++
+				}
+				l.Class(class)
+				if bad != "" {
+					l.Violate("tree/"+key+"/wide-table", bad+fmt.Sprintf(" [wide table in order %d, path %q]", o, pth), c01Case{Routes: c01Texts(rs), Path: pth})
+				} else if nt && (o+pi)%997 == 0 {
+					l.Sample(map[string]interface{}{"level": "wide table", "order": o, "path": pth, "outcome": class})
+				}
+			}
+		}
+	})
+}
+
 func c01Run(r *core.Run) {
 	p, err := route.NewParser()
 	if err != nil {
 		panic(err)
 	}
 	alpha := []string{"a", "b", "c", "", "ab", "a-b", "%61", "a+b"}
-	specials := []string{"", "//a", "a/", "///a/b", "a", "/a//", "//"}
+	specials := []string{"", "//a", "a/", "///a/b", "a", "/a//", "//", "/A", "/a/B", "/A/b/c", "/Ab", "/a/b/C"} // incl. upper-case twins of the literals (matching is case-sensitive)
 	r.Assumptions = []string{
 		"route sets up to the stated size over the stated segment shapes; path segments over {a,b,c,'',ab,a-b,%61}",
 		"Go regexp is trusted (used independently per expression by the reference)",
 		"registration verdict differences are C08's finding; such configurations are skipped here and counted",
 	}
-	r.Rule = "engine E: every ordered tuple of distinct catalogue routes registered on a fresh route.Tree (and Flame for the method dimension) x every path; every tuple also with the whole path set served between its registrations (same final answers required); oracle = declarative admission (found iff some form admits) AND the documented priority procedure over a reference trie (winner equality); non-trivial = (set,path) admitted by >=2 registered forms or won after back-tracking out of a higher-ranked branch"
+	r.Rule = "engine E: every ordered tuple of distinct catalogue routes registered on a fresh route.Tree (and Flame for the method dimension) x every path; every tuple also with the whole path set served between its registrations (same final answers required); one table of 33 routes in 66 registration orders; oracle = declarative admission (found iff some form admits) AND the documented priority procedure over a reference trie (winner equality); non-trivial = (set,path) admitted by >=2 registered forms or won after back-tracking out of a higher-ranked branch"
 	var maxSegs, pathSegs, pairPathSegs int
 	if r.Thorough() {
 		r.SetBudget(20 * time.Minute)
@@ -555,6 +609,7 @@ func c01Run(r *core.Run) {
 		c01Configs(r, q, 3, pathsOver(alpha, 2, specials), "triples(reduced[:30])")
 		r.Bounds["tuples"] = "singles + ordered pairs (<=2-segment catalogue) + ordered triples (first 30 of reduced)"
 	}
+	c01Wide(r, p, pathsLong)
 	fl := reduced
 	if !r.Thorough() && len(fl) > 26 {
 		fl = fl[:26]
